@@ -563,6 +563,26 @@ def run(case, res):
         if w0.name != orig_name:
             w0.name = orig_name
         res.probes.hit('rename_attempts')
+    # the user asks a memory for one read port more than it was declared with (refused), handles
+    # the refusal and leaves the design as it was
+    with pyrtl.set_working_block(b.block, no_sanity_check=True):
+        full = sorted((m for m in set(n.op_param[1] for n in b.block.logic if n.op == 'm')
+                       if m.max_read_ports is not None and m.num_read_ports >= m.max_read_ports
+                       and not getattr(m, 'build_new_roms', False)),
+                      key=lambda m: (m.name, m.id))
+        try:
+            if full:
+                m0 = full[sched.get('hash_seed', 0) % len(full)]
+                pyrtl.as_wires(m0[m0.readport_nets[0].args[0]])
+            elif cand:
+                spare = pyrtl.MemBlock(bitwidth=4, addrwidth=len(cand[0]), name='spare',
+                                       max_read_ports=0, block=b.block)
+                pyrtl.as_wires(spare[cand[0]])
+        except pyrtl.PyrtlError:
+            res.faults.hit('read_port_refused')
+        else:
+            if full or cand:
+                return Violation('valid_design', 'read_port_beyond_max_read_ports_accepted', {}, ['positive'])
     # the user asks the block for its wires and whittles the answer down in place: the answer
     # is his to modify, the block's own set is not
     mine = b.block.wirevector_subset()
